@@ -8,8 +8,9 @@ QUICK = ['seq2', 'two_if', 'if_else_first', 'catch_act', 'cancel_par']
 
 def main(tier, seed):
     c = Check("C03", tier, seed)
-    # generated (parallel) groups: only complete / cancel histories are explored; skip / back / abort / remove inside one generated
-    # group leave the sibling groups open (observed, see DESIGN.md findings) and are not classified further here
+    # acts generated at run time (acts.core.parallel / sequence block): only complete / cancel histories are explored; skip / back / abort / remove inside
+    # one generated group leave the sibling groups open (observed, see DESIGN.md findings) and are not classified further here.  A parallel block of
+    # declared acts (par_block) is explored with every action kind.
     jobs, bounds = scripted_jobs("C03", "c03", QUICK, tier, seed, generated_kinds=["Next", "Cancel"])
     # histories with fired timeout rules (symbolic clock): the handler steps started beneath a task are part of its hierarchy
     for rules, on_step in ((["1s"], True), (["1s"], False), (["1s", "1m"], True)):
